@@ -2,7 +2,7 @@
 import re
 
 from analysis import (flow_key, Prov, Guards, fmt, fmt_short, walk, roots, short, comparison, find_calls, callee_matches,
-                      must_pass, const_int_of, writes_into, _lin_add, canon, slice_span, normalised_cmp, cmp_intervals, closure_return_in_caller_terms)
+                      must_pass, const_int_of, writes_into, _lin_add, canon, slice_span, normalised_cmp, cmp_intervals, closure_return_in_caller_terms, linear)
 from aff import Aff, Fact
 from facts import AnchorError, strip_closure
 from harness import Rule, guarded
@@ -288,54 +288,67 @@ def r3(ctx):
     b, a = c["b"], c["a"]
     p = a.prov
     rl = {}
-    for bi, t in b.calls():
-        n = short(t.callee() or "")
-        if re.search(r"ops::Index>::index$", n) and "Range{" in fmt(p.operand(t.args[0])) and re.match(r"(slice::to_vec\()?index::index\(data", fmt_short(p.operand(t.args[0]))):
-            base = p.operand(t.args[0])
-            # only the 23-byte static header vector
-            bl = a.length(base)
-            if not (bl and not bl[0] and bl[1] == sh):
+    iv_len = facts.const_value(P + "IV_LENGTH")
+    DATA = ("param", b_idx(b, "data"), "data")
+
+    def header_ranges(e):
+        """the parts of the static header (bytes IV_LENGTH.. of the datagram) that expression `e` reads, relative to the header's start;
+        the header as a whole is not a part"""
+        out = set()
+        for x in walk(canon(e)):
+            if not (isinstance(x, tuple) and x):
                 continue
-            rng = p.operand(t.args[1])
-            kind, f = a.range_parts(rng)
-            dest_key = (b.path, bi)
-            if kind == "RangeTo":
-                lo, hi = 0, a.value(f["end"])[1]
-            elif kind == "Range":
-                lo, hi = a.value(f["start"])[1], a.value(f["end"])[1]
-            elif kind == "RangeFrom":
-                lo, hi = a.value(f["start"])[1], sh
-            elif kind is None:
-                v = a.value(rng)
-                lo, hi = v[1], v[1] + 1
-            else:
-                continue
-            # what is it used for?
-            use = None
-            for sbi, st, se in a.guards.switches():
-                cc = comparison(se)
-                if cc and any(x[0] == "call" and x[3] == dest_key for side in (cc[1], cc[2]) for x in walk(canon(side))):
-                    other = fmt_short(cc[2]) + fmt_short(cc[1])
-                    if "protocol_identity.protocol_id" in other.replace("protocol_identity.protocol_version", ""):
-                        use = "protocol_id"
-                    elif "protocol_version" in other:
-                        use = "protocol_version"
-            for cbi, ct in b.calls():
-                if (ct.callee() or "") == P + "PacketKind::decode" and any(x[0] == "call" and x[3] == dest_key for x in walk(canon(p.operand(ct.args[0])))):
-                    use = "kind"
-            for blk in b.blocks:
-                for s in blk.stmts:
-                    if s.k == "a" and s.rv.k == "agg" and s.rv.j.get("def") == P + "PacketHeader":
-                        fd = dict(zip(s.rv.j["fields"], [p.operand(o) for o in s.rv.ops]))
-                        if any(x[0] == "call" and x[3] == dest_key for x in walk(canon(fd["message_nonce"]))):
-                            use = "message_nonce"
-            for sbi, st, se in a.guards.switches():
-                cc = comparison(se)
-                if cc and "from_be_bytes" in fmt_short(canon(cc[1])) + fmt_short(canon(cc[2])):
-                    if any(x[0] == "call" and x[3] == dest_key for side in (cc[1], cc[2]) for x in walk(canon(side))):
-                        use = use or "auth_data_size"
-            if use:
-                rl.setdefault(use, set()).add((lo, hi))
+            if x[0] == "index" and len(x) > 2:
+                base, st, en = slice_span(x[1])
+                i = linear(x[2])
+                if canon(base) == DATA and st and not st[0] and en and not en[0] and (st[1], en[1]) == (iv_len, iv_len + sh) and i is not None and not i[0]:
+                    out.add((i[1], i[1] + 1))
+            elif x[0] == "call" and len(x[2]) == 2 and re.search(r"::index$|::get$", short(x[1])):
+                base, st, en = slice_span(x)
+                if canon(base) == DATA and st and not st[0] and st[1] >= iv_len:
+                    lo = st[1] - iv_len
+                    hi = en[1] - iv_len if en and not en[0] else None
+                    if hi is None:
+                        continue
+                    if (lo, hi) == (0, sh) or hi > sh:
+                        continue
+                    out.add((lo, hi))
+                elif canon(base) != DATA:
+                    # an element picked through the Index trait (`header_vec[8]`)
+                    bb, st2, en2 = slice_span(x[2][0])
+                    i = linear(x[2][1])
+                    if canon(bb) == DATA and st2 and not st2[0] and en2 and not en2[0] and (st2[1], en2[1]) == (iv_len, iv_len + sh) and i is not None and not i[0]:
+                        out.add((i[1], i[1] + 1))
+        # nested slicing reports the outer range too: keep the innermost (narrowest) ranges
+        return {r for r in out if not any(o != r and r[0] <= o[0] and o[1] <= r[1] for o in out)}
+
+    def note(use, e):
+        for r in header_ranges(e):
+            rl.setdefault(use, set()).add(r)
+    for sbi, st, se in a.guards.switches():
+        cc = comparison(se)
+        if not cc:
+            continue
+        for side, oth in ((cc[1], cc[2]), (cc[2], cc[1])):
+            other = fmt_short(oth)
+            if "protocol_identity.protocol_id" in other.replace("protocol_identity.protocol_version", ""):
+                note("protocol_id", side)
+            elif "protocol_version" in other:
+                note("protocol_version", side)
+        for side in (cc[1], cc[2]):
+            for x in walk(canon(side)):
+                if isinstance(x, tuple) and x and x[0] == "call" and re.search(r"num::from_be_bytes$", short(x[1])) and x[2]:
+                    note("auth_data_size", x[2][0])
+    for cbi, ct in b.calls():
+        if (ct.callee() or "") == P + "PacketKind::decode":
+            note("kind", p.operand(ct.args[0]))
+    for blk in b.blocks:
+        if blk.idx not in b.live_blocks():
+            continue
+        for s_ in blk.stmts:
+            if s_.k == "a" and s_.rv.k == "agg" and s_.rv.j.get("def") == P + "PacketHeader":
+                fd = dict(zip(s_.rv.j["fields"], [p.operand(o) for o in s_.rv.ops]))
+                note("message_nonce", fd["message_nonce"])
     rl1 = {k: sorted(v)[0] for k, v in rl.items() if len(v) == 1}
     rule.check(rl1 == wl, "reader ranges %s == writer ranges" % rl1, "header|reader-layout",
                "Packet::decode reads the static header as %s but PacketHeader::encode writes %s" % (rl, wl), loc=b.loc(b.line))
